@@ -54,6 +54,7 @@ def run_witness(w):
 CORPUS_DIRS = {"inputs": "lua51", "inputs-full_moon": "lua51", "inputs-lua52": "lua52", "inputs-lua53": "lua53", "inputs-lua54": "lua54", "inputs-luau": "luau",
                "inputs-luau-full_moon": "luau", "inputs-ignore": "lua51", "inputs-collapse-single-statement": "lua51", "inputs-sort-requires": "lua51"}
 _corpus_cache = {}
+CORPUS_TIME_LIMIT = 240    # seconds per configuration; the sweep takes 3-4 s per configuration in the quick tier, 15 s in the thorough tier
 
 def corpus_list(only=None):
     import glob
@@ -78,7 +79,14 @@ def run_corpus(configs, widths, only=None):
         open(lst, "w").write("\n".join(corpus_list(only)) + "\n")
         for opts in configs:
             args = [BIN, "corpus", lst, "widths=" + ",".join(str(w) for w in widths)] + [f"{k}={v}" for k, v in opts.items()]
-            p = subprocess.run(args, capture_output=True, text=True, timeout=1200)
+            try:
+                p = subprocess.run(args, capture_output=True, text=True, timeout=CORPUS_TIME_LIMIT)
+            except subprocess.TimeoutExpired:
+                # (a few seconds on the unchanged tree) reported as its own kind: decided by C07 only
+                stats["runs"] += 0
+                fails.append(dict(file="tests", column_width=widths[0], kind="timeout", opts=opts,
+                                  detail=f"the formatter did not get through the repository's test inputs under {opts} within {CORPUS_TIME_LIMIT} s"))
+                continue
             try:
                 j = json.loads(p.stdout)
             except Exception:
